@@ -122,8 +122,10 @@ func (a sortableNodeArray) compare(lhs *CandidateNode, rhs *CandidateNode, dateT
 		isDateTime = errLhs == nil && errRhs == nil
 	}
 
-	lhsIsNumber := lhsTag == "!!int" || lhsTag == "!!float"
-	rhsIsNumber := rhsTag == "!!int" || rhsTag == "!!float"
+	// numbers are compared exactly (integers may be spelled in hex or octal and do not all fit a float64);
+	// a number tag on text that does not parse as a number is compared as text instead of panicking
+	lhsNum, lhsNaN, lhsIsNumber := sortableNumber(lhs, lhsTag)
+	rhsNum, rhsNaN, rhsIsNumber := sortableNumber(rhs, rhsTag)
 
 	if lhsTag == "!!null" && rhsTag == "!!null" {
 		// null and ~ are the same value
@@ -164,31 +166,7 @@ func (a sortableNodeArray) compare(lhs *CandidateNode, rhs *CandidateNode, dateT
 		}
 
 		return 1
-	} else if lhsTag == "!!int" && rhsTag == "!!int" {
-		_, lhsNum, err := parseInt64(lhs.Value)
-		if err != nil {
-			panic(err)
-		}
-		_, rhsNum, err := parseInt64(rhs.Value)
-		if err != nil {
-			panic(err)
-		}
-		// not lhsNum - rhsNum: the difference of two int64 can overflow
-		if lhsNum == rhsNum {
-			return 0
-		} else if lhsNum < rhsNum {
-			return -1
-		}
-		return 1
 	} else if lhsIsNumber && rhsIsNumber {
-		lhsNum, lhsNaN, err := sortableNumber(lhs, lhsTag)
-		if err != nil {
-			panic(err)
-		}
-		rhsNum, rhsNaN, err := sortableNumber(rhs, rhsTag)
-		if err != nil {
-			panic(err)
-		}
 		if lhsNaN || rhsNaN {
 			// NaN has no numeric order: keep the order total by putting it before every other number
 			if lhsNaN && rhsNaN {
@@ -213,24 +191,30 @@ func (a sortableNodeArray) compare(lhs *CandidateNode, rhs *CandidateNode, dateT
 	return strings.Compare(lhs.Value, rhs.Value)
 }
 
-// sortableNumber reads a number for an exact comparison between integers and floats. Integers may be
-// spelled in hex or octal (which strconv.ParseFloat does not understand) and do not all fit a float64.
-func sortableNumber(node *CandidateNode, tag string) (*big.Float, bool, error) {
-	if tag == "!!int" {
+// sortableNumber reads a number for an exact comparison between integers and floats; the last result
+// tells whether the node is a number at all.
+func sortableNumber(node *CandidateNode, tag string) (*big.Float, bool, bool) {
+	switch tag {
+	case "!!int":
 		_, num, err := parseInt64(node.Value)
-		return new(big.Float).SetInt64(num), false, err
+		return new(big.Float).SetInt64(num), false, err == nil
+	case "!!float":
+		switch strings.ToLower(node.Value) {
+		case ".inf", "+.inf":
+			return new(big.Float).SetInf(false), false, true
+		case "-.inf":
+			return new(big.Float).SetInf(true), false, true
+		case ".nan":
+			return nil, true, true
+		}
+		num, err := strconv.ParseFloat(node.Value, 64)
+		if err != nil {
+			return nil, false, false
+		}
+		if math.IsNaN(num) {
+			return nil, true, true
+		}
+		return new(big.Float).SetFloat64(num), false, true
 	}
-	switch strings.ToLower(node.Value) {
-	case ".inf", "+.inf":
-		return new(big.Float).SetInf(false), false, nil
-	case "-.inf":
-		return new(big.Float).SetInf(true), false, nil
-	case ".nan":
-		return nil, true, nil
-	}
-	num, err := strconv.ParseFloat(node.Value, 64)
-	if err != nil || math.IsNaN(num) {
-		return nil, math.IsNaN(num), err
-	}
-	return new(big.Float).SetFloat64(num), false, nil
+	return nil, false, false
 }
